@@ -25,6 +25,10 @@ pub enum EditOp {
     /// behaviour-changing edit inside one item (module constant/operator, package function)
     ChangeBody { item: ItemId },
     ChangeConst { pkg: ItemId, idx: usize },
+    /// set a literal constant to a given value (only the package's file changes)
+    SetConst { pkg: ItemId, idx: usize, val: u32 },
+    /// remove the last input port again (definer only; users are not rewritten)
+    RemovePort { module: ItemId },
     RenameConst { pkg: ItemId, idx: usize, consistent: bool },
     RenamePort { module: ItemId, consistent: bool },
     RenameParam { module: ItemId, consistent: bool },
@@ -475,6 +479,21 @@ impl Editor {
                 };
                 a.classes.push("const_value_change");
                 self.flush(p, ws, None, &mut a);
+            }
+            EditOp::SetConst { pkg, idx, val } => {
+                p.pkg_mut(*pkg).consts[*idx].val = ConstVal::Lit(*val);
+                a.classes.push("const_value_change");
+                self.flush(p, ws, None, &mut a);
+            }
+            EditOp::RemovePort { module } => {
+                let m = p.module_mut(*module);
+                if m.ins.len() > 1 {
+                    m.ins.pop();
+                }
+                a.classes.push("iface_change");
+                a.classes.push("remove_port");
+                let f = p.file_of(*module);
+                self.flush(p, ws, f.as_ref().map(std::slice::from_ref), &mut a);
             }
             EditOp::RenameConst { pkg, idx, consistent } => {
                 let k = p.fresh();
